@@ -361,6 +361,12 @@ impl<T: Object<Entry = Entry>> Ref<T> {
     // TODO: rename `branch_disable`
     pub(super) fn branch_acquire(self, is_locked: bool, location: Location) {
         super::branch(|execution| {
+            // The execution has already failed (deadlock): this branch comes
+            // from a destructor running during the unwinding.
+            if !execution.threads.is_active() {
+                return;
+            }
+
             trace!(obj = ?self, ?is_locked, "Object::branch_acquire");
 
             self.set_action(execution, Action::Opaque, location);
@@ -378,6 +384,12 @@ impl<T: Object<Entry = Entry>> Ref<T> {
         location: Location,
     ) {
         super::branch(|execution| {
+            // The execution has already failed (deadlock): this branch comes
+            // from a destructor running during the unwinding.
+            if !execution.threads.is_active() {
+                return;
+            }
+
             trace!(obj = ?self, ?action, "Object::branch_action");
 
             self.set_action(execution, action.into(), location);
@@ -391,6 +403,12 @@ impl<T: Object<Entry = Entry>> Ref<T> {
         location: Location,
     ) {
         super::branch(|execution| {
+            // The execution has already failed (deadlock): this branch comes
+            // from a destructor running during the unwinding.
+            if !execution.threads.is_active() {
+                return;
+            }
+
             trace!(obj = ?self, ?action, ?disable, "Object::branch_disable");
 
             self.set_action(execution, action.into(), location);
